@@ -328,6 +328,13 @@ def family_molecules(prop, tier):
         cols2[k - 1] = ("H", 3, None)
         cols2[k + 1] = ("C", 13, None)
         yield (f"alkane-like comb {k}", cols2, [(k + i, k + i + 1) for i in range(k - 1)] + [(i, k + i) for i in range(k)])
+    for k in (10, 12, 16, 17) if tier == "quick" else (9, 10, 11, 12, 16, 17, 18, 24, 25, 33):
+        # every pair of labelled positions on a chain: labelled indices on both sides of 9/10, colliding mod 8, ...
+        for i, j in combinations(range(k), 2):
+            cols = [plain("C")] * k
+            cols[i] = ("C", 13, None)
+            cols[j] = ("C", 14, 2) if (i + j) % 2 else ("C", 14, None)
+            yield (f"chain C{k} labelled at {i},{j}", cols, [(x, x + 1) for x in range(k - 1)])
     if tier == "thorough":
         for a, b, c in combinations(SYMBOLS, 3):
             if (Z[a] * 7 + Z[b] * 3 + Z[c]) % 11 == 0:
